@@ -6,7 +6,8 @@
 (* timeframe, no liquidation, the normal run itself completed - and discards the *)
 (* pair otherwise (verdict "discard:...", counted, never judged); (2) compares   *)
 (* the executed orders in execution order as (side, type, qty, price, minute),   *)
-(* the closed trades and the final balances.  Numbers are exact texts of the     *)
+(* the closed trades, the final balances and the strategy executions (index and  *)
+(* clock of every before() call).  Numbers are exact texts of the                *)
 (* doubles: both simulators perform the same arithmetic on the same fills, so    *)
 (* there is no tolerance.  Deterministic and total: one verdict per trace.       *)
 (*                                                                              *)
@@ -98,13 +99,24 @@ TradesStep == /\ ph = "trades"
 
 Balances == /\ ph = "balances"
             /\ LET a == Nm(tid).bal  b == Fs(tid).bal IN
-               IF j > Len(a) /\ j > Len(b) THEN ph' = "done" /\ UNCHANGED <<j, verdict>>
+               IF j > Len(a) /\ j > Len(b) THEN ph' = "steps" /\ j' = 1 /\ UNCHANGED verdict
                ELSE IF j > Len(a) \/ j > Len(b) THEN verdict' = "balance:count" /\ UNCHANGED <<ph, j>>
                ELSE IF a[j] # b[j] THEN verdict' = "balance:" \o a[j][1] /\ UNCHANGED <<ph, j>>
                ELSE j' = j + 1 /\ UNCHANGED <<ph, verdict>>
             /\ UNCHANGED <<tid, seen>>
 
-Next == verdict = "ok" /\ (Pre0 \/ Pre \/ Raise \/ Orders \/ TradesStep \/ Balances)
+\* the strategy executions themselves (index and clock of every before() call): "reproduces the normal simulation" includes
+\* running the strategy at the same trading-candle boundaries - one run more or less on an incomplete trailing candle is a
+\* difference even when it happens to place no order
+Steps == /\ ph = "steps"
+         /\ LET a == Nm(tid).steps  b == Fs(tid).steps IN
+            IF j > Len(a) /\ j > Len(b) THEN ph' = "done" /\ UNCHANGED <<j, verdict>>
+            ELSE IF j > Len(a) THEN verdict' = "steps:fast-runs-the-strategy-more-often" /\ UNCHANGED <<ph, j>>
+            ELSE IF j > Len(b) THEN verdict' = "steps:fast-runs-the-strategy-less-often" /\ UNCHANGED <<ph, j>>
+            ELSE IF a[j] # b[j] THEN verdict' = "steps:time" /\ UNCHANGED <<ph, j>>
+            ELSE j' = j + 1 /\ UNCHANGED <<ph, verdict>>
+         /\ UNCHANGED <<tid, seen>>
+Next == verdict = "ok" /\ (Pre0 \/ Pre \/ Raise \/ Orders \/ TradesStep \/ Balances \/ Steps)
 Spec == Init /\ [][Next]_vars
 Finished == verdict # "ok" \/ ph = "done"
 \* second element: number of resting fills of the normal run seen by the precondition walk (coverage, not a verdict)
